@@ -31,6 +31,24 @@ if TYPE_CHECKING:
     from collections.abc import Iterable
 
     from gemseo.core.derivatives.chain_rule import DisciplineIOMapping
+    from gemseo.core.discipline import Discipline
+
+
+def _get_group_couplings(group: Iterable[Discipline]) -> set[str]:
+    """Return the strong couplings of a group of strongly coupled disciplines.
+
+    Args:
+        group: The strongly coupled disciplines.
+
+    Returns:
+        The names of the variables that are both inputs and outputs of the group.
+    """
+    input_names = set()
+    output_names = set()
+    for discipline in group:
+        input_names.update(discipline.io.input_grammar)
+        output_names.update(discipline.io.output_grammar)
+    return input_names & output_names
 
 
 def _replace_strongly_coupled(
@@ -53,7 +71,6 @@ def _replace_strongly_coupled(
     disciplines_with_group = list(coupling_structure.disciplines)
     reduced_disciplines = []
     all_disc_with_red = []
-    strong_c = set(coupling_structure.strong_couplings)
     for parallel_tasks in coupling_structure.sequence:
         for group in parallel_tasks:
             # The strong coupling cycles are treated here
@@ -62,6 +79,9 @@ def _replace_strongly_coupled(
                 len(group) == 1 and coupling_structure.is_self_coupled(group[0])
             ):
                 disc_merged = DummyDiscipline(str(uuid.uuid4()))
+                # Only the strong couplings of this group are hidden:
+                # the ones computed by another group are real dependencies.
+                strong_c = _get_group_couplings(group)
                 for disc in group:
                     disciplines_with_group.remove(disc)
                     # The strong couplings are not real dependencies of the MDA for
@@ -121,9 +141,9 @@ def traverse_add_diff_io_mda(
     )
 
     # The sub MDAs where the strong couplings are handled here.
-    strong_couplings = coupling_structure.strong_couplings
     for group, disc_reduced in zip(strong_groups, reduced_disciplines):
         if disc_reduced in diff_ios_merged:
+            strong_couplings = _get_group_couplings(group)
             diff_red_in = set(diff_ios_merged[disc_reduced][0])
             diff_red_out = set(diff_ios_merged[disc_reduced][1])
 
